@@ -396,9 +396,9 @@ pub fn primary_words(e: &E, ch: &mut dyn Chooser) -> Option<Vec<Tok>> {
         },
         E::G(g) => match g {
             Glob::Depth => Some(vec![tok("-depth")]),
-            Glob::MaxDepth(n) => Some(vec![tok("-maxdepth"), tok(n.to_string())]),
-            Glob::MinDepth(n) => Some(vec![tok("-mindepth"), tok(n.to_string())]),
-            Glob::Threads(n) => Some(vec![tok("-threads"), tok(n.to_string())]),
+            Glob::MaxDepth(n) => Some(vec![tok("-maxdepth"), tok(spell_num(*n as u64, ch))]),
+            Glob::MinDepth(n) => Some(vec![tok("-mindepth"), tok(spell_num(*n as u64, ch))]),
+            Glob::Threads(n) => Some(vec![tok("-threads"), tok(spell_num(*n as u64, ch))]),
         },
         E::Pos => Some(vec![tok("nope")]),
         _ => None,
